@@ -124,6 +124,7 @@ PROPS = {
             "whether a reply is acceptable is decided by the reference rule ref.AcceptSyncReply, not by the generator's intent",
             "ban monotonicity is asserted under an unchanged GCA (a valid migration replaces the list by design, C17)",
             "with every configured server banned no report is expected (reporting to a banned server would itself violate the property)",
+            "a server that announces its own ban in an accepted reply stays the selected one until the client's next round (the code does not re-select at once; the property speaks of selecting): ticks in between are granted and must complete, but whether they emit is not judged",
         ],
     },
     "C09": {
